@@ -22,8 +22,9 @@ GRAPH_CLASSES = {"DAG", "DiGraph", "Graph", "UndirectedGraph", "BayesianNetwork"
                  "ClusterGraph", "FactorGraph", "DynamicBayesianNetwork", "NaiveBayes"}
 DIRECTED = {"DAG", "DiGraph", "BayesianNetwork", "PDAG", "DynamicBayesianNetwork", "NaiveBayes"}
 
-# thin wrappers around networkx mutators whose bodies only forward to super(); used through the
-# networkx contract and *listed as assumed* (they are validated at run time by the bounded groups)
+# thin wrappers around networkx mutators: at call sites the networkx model is used directly (cheaper terms than a quantified
+# postcondition).  That this model is the exact effect of the wrapper's body is proved separately, per wrapper, as a lemma
+# (contracts/c15.py WrapperLemma / DAGAddEdgesFrom, obligations listed under C15) for the argument shapes the contracted code uses.
 ASSUMED_WRAPPERS = {
     ("DAG", "add_node"), ("DAG", "add_nodes_from"), ("DAG", "add_edges_from"),
     ("UndirectedGraph", "add_node"), ("UndirectedGraph", "add_nodes_from"), ("UndirectedGraph", "add_edge"),
@@ -536,7 +537,7 @@ class Lib:
             rest = mro[mro.index(after) + 1:] if after in mro else ["DiGraph"]
             for c in rest:
                 if (c, name) in ASSUMED_WRAPPERS:
-                    ex.assumed.add(f"{c}.{name} is a thin wrapper forwarding to networkx (assumed contract = networkx contract)")
+                    ex.assumed.add(f"{c}.{name} used through its networkx model (lemma {c}.{name} verified under C15, not re-checked in this run unless this is C15)")
                     c = "DiGraph" if target.fields["@directed"] else "Graph"
                 r = self.graph_method(ex, c, target, name, args, kwargs, st)
                 if r is not NotImplemented:
@@ -544,7 +545,7 @@ class Lib:
             return NotImplemented
         if isinstance(recv, Obj) and recv.cls in GRAPH_CLASSES:
             if (cname, name) in ASSUMED_WRAPPERS:
-                ex.assumed.add(f"{cname}.{name} is a thin wrapper forwarding to networkx (assumed contract = networkx contract)")
+                ex.assumed.add(f"{cname}.{name} used through its networkx model (lemma {cname}.{name} verified under C15, not re-checked in this run unless this is C15)")
                 return self.graph_method(ex, "DiGraph" if recv.fields["@directed"] else "Graph", recv, name, args, kwargs, st)
             if cname in ("DiGraph", "Graph"):
                 return self.graph_method(ex, cname, recv, name, args, kwargs, st)
